@@ -142,13 +142,10 @@ impl Server {
         latest_versions: Arc<std::sync::Mutex<HashMap<Uri, i32>>>,
     ) -> anyhow::Result<()> {
         // Results of an analysis are only published if no newer version of the document has
-        // arrived in the meantime.
-        let is_outdated = move |uri: &Uri| {
-            latest_versions
-                .lock()
-                .unwrap_or_else(|e| e.into_inner())
-                .get(uri)
-                .is_some_and(|latest| *latest != version)
+        // arrived in the meantime. The lock on the latest versions is held while publishing, so
+        // that a newer version cannot be registered and published in between.
+        let is_outdated = move |latest: &HashMap<Uri, i32>, uri: &Uri| {
+            latest.get(uri).is_some_and(|latest| *latest != version)
         };
         let mut grammar_config = Self::obtain_grammar_config_from_string(input, file_name)?;
         let ignored_unreachable_non_terminals = grammar_config
@@ -173,7 +170,8 @@ impl Server {
             GrammarType::LLK => {
                 if let Err(err) = calculate_lookahead_dfas(&grammar_config, max_k) {
                     eprintln!("check_grammar: errors from calculate_lookahead_dfas");
-                    if is_outdated(&uri) {
+                    let latest = latest_versions.lock().unwrap_or_else(|e| e.into_inner());
+                    if is_outdated(&latest, &uri) {
                         return;
                     }
                     let _ =
@@ -182,7 +180,8 @@ impl Server {
             }
             GrammarType::LALR1 => {
                 let result = calculate_lalr1_parse_table(&grammar_config);
-                if is_outdated(&uri) {
+                let latest = latest_versions.lock().unwrap_or_else(|e| e.into_inner());
+                if is_outdated(&latest, &uri) {
                     return;
                 }
                 match result {
